@@ -100,6 +100,31 @@ for tag in ("self", "child_self"):
     st, truth = r1[tag]
     if [f.pyframe for f in st.frames] != truth or st.error is not None:
         leg.violation(("depth-one", tag), f"current greenlet of call depth one ({tag}): {names(st)} is not exactly its own single frame, error={st.error!r}")
+# a greenlet suspended DEEPER than the recursion limit in force when it is inspected (parked 400 frames deep, limit then lowered
+# by the shallow asker): all of its frames, entry function first
+def parked_deep():
+    def descend(n):
+        if n == 0:
+            greenlet.getcurrent().parent.switch()
+        else:
+            descend(n - 1)
+    def entry_deep():
+        descend(400)
+    gd = greenlet.greenlet(entry_deep); gd.switch()
+    old = sys.getrecursionlimit()
+    try:
+        sys.setrecursionlimit(150)
+        return stackscope.extract(gd), chain_from(gd.gr_frame), gd
+    except RecursionError:
+        return None, None, gd
+    finally:
+        sys.setrecursionlimit(old)
+st_d, truth_d, gd_ = parked_deep()
+leg.case(("parked-deeper-than-the-recursion-limit",), st_d is not None)
+if st_d is not None and ([f.pyframe for f in st_d.frames] != truth_d or st_d.error is not None):
+    leg.violation(("parked-deeper-than-the-recursion-limit",), f"greenlet parked 400 deep inspected under recursion limit 150: {len(st_d.frames)} frames starting "
+                                                                f"at {st_d.frames[0].funcname if st_d.frames else None}, expected {len(truth_d)} from entry_deep; error={st_d.error!r}")
+gd_.switch()
 g = greenlet.greenlet(lambda: None)
 leg.case("unstarted", True)
 if stackscope.extract(g).frames: leg.violation("unstarted", "an unstarted greenlet yields frames")
